@@ -196,6 +196,45 @@ fn lines(max_entries: usize) -> Vec<String> {
     out
 }
 
+/// Longer lines (3..=max entries) over a reduced entry alphabet: several payload-only, padding-only and
+/// check-mark records in ONE packet (the full alphabet stops at 2 (3) entries per line).
+fn long_lines(max_entries: usize) -> Vec<String> {
+    const E: [&str; 5] = ["c", "7-7", "8-8", "30-30", "100-400"];
+    let mut out: Vec<String> = vec![];
+    let mut frontier: Vec<Vec<&str>> = vec![vec![]];
+    for n in 1..=max_entries {
+        let mut next = vec![];
+        for l in &frontier {
+            for e in E {
+                let mut x = l.clone();
+                x.push(e);
+                next.push(x);
+            }
+        }
+        if n >= 3 {
+            for l in &next {
+                out.push(l.join(","));
+            }
+        }
+        frontier = next;
+    }
+    out
+}
+
+fn long_line_cases(thorough: bool) -> Vec<PadCase> {
+    let mut cases = vec![];
+    for line in long_lines(if thorough { 5 } else { 4 }) {
+        let draws: Vec<DrawPolicy> = if line.contains("100-400") { vec![DrawPolicy::Min, DrawPolicy::Alternate] } else { vec![DrawPolicy::Min] };
+        for draw in draws {
+            for p in [0usize, 1, 23, 31, 100, 493] {
+                cases.push(PadCase { scheme: scheme_text(3, &line, None), draw, payloads: vec![p; 3], real_first_batch: false, server_role: false });
+            }
+            cases.push(PadCase { scheme: scheme_text(3, &line, None), draw, payloads: vec![5, 300, 0], real_first_batch: true, server_role: false });
+        }
+    }
+    cases
+}
+
 fn scheme_text(stop: u32, line: &str, only: Option<u32>) -> String {
     let mut s = format!("stop={stop}");
     let upto = stop.max(1) + 1;
@@ -241,6 +280,7 @@ pub fn run_c04(tier: Tier) -> i32 {
             }
         }
     }
+    cases.extend(long_line_cases(thorough));
     // over-long chunk (several frames in one call) under padding
     for line in ["30-30", "100-400,c,65535-65535", "7-7,8-8"] {
         cases.push(PadCase { scheme: scheme_text(3, line, None), draw: DrawPolicy::Max, payloads: vec![70000, 131072], real_first_batch: true, server_role: false });
@@ -279,7 +319,7 @@ pub fn run_c04(tier: Tier) -> i32 {
     }
     rep.sections.insert("sessions".into(), json!({"total": n_cases, "with_padding_frames": with_padding, "lines": ls.len()}));
     giant_sizes(&mut rep, thorough);
-    rep.finish("IX: every scheme line of <=2 (thorough 3) entries over 16 entry forms x stop in {0,1,2,3,9} x draw policy x 10 payload sizes per packet (+ the real first batch, + 'only line 2', + over-long chunks, + server role); each session's recorded wire is parsed by the reference parser; non-trivial = distinct case in which padding frames were actually emitted")
+    rep.finish("IX: every scheme line of <=2 (thorough 3) entries over 16 entry forms x stop in {0,1,2,3,9} x draw policy x 10 payload sizes per packet (+ the real first batch, + 'only line 2', + over-long chunks, + server role, + every line of 3..4 (thorough 5) entries over the reduced alphabet {c, 7, 8, 30, 100-400}); each session's recorded wire is parsed by the reference parser; non-trivial = distinct case in which padding frames were actually emitted")
 }
 
 /// sizes >= 2^31 can abort the process on allocation: each case runs in a child process under RLIMIT_AS.
@@ -535,6 +575,7 @@ pub fn run_c05(tier: Tier) -> i32 {
         }
         cases.push(PadCase { scheme: scheme_text(3, line, None), draw: DrawPolicy::Max, payloads: vec![5, 50, 500], real_first_batch: false, server_role: true });
     }
+    cases.extend(long_line_cases(thorough));
     // the default scheme with the real first batch and every draw policy
     for draw in [DrawPolicy::Min, DrawPolicy::Max, DrawPolicy::MinPlus1, DrawPolicy::Mid] {
         cases.push(PadCase { scheme: DEFAULT.to_string(), draw, payloads: vec![100, 2000, 5, 5, 5, 5, 5, 5, 5, 5], real_first_batch: true, server_role: false });
@@ -569,7 +610,7 @@ pub fn run_c05(tier: Tier) -> i32 {
     rep.sections.insert("sessions".into(), json!({"total": n_cases, "lines": ls.len()}));
     let cap = Duration::from_secs(if thorough { 900 } else { 40 });
     run_items(&mut rep, "C05", tier, c05_items(tier), DxOpts { time_cap: cap, det_replays: 8, max_violations: 3, vacuity_check: true });
-    rep.finish("IX: every scheme line of <=2 (thorough 3) entries over 12 entry forms x stop x draw policy {min,max,min+1} x 10 payload sizes per packet, write lengths of every flush-delimited batch checked by the reference acceptor for its line; preamble for every line 0; DX: 2-3 concurrent writers on a fresh session with <= B pre-emptions (wire order vs packet index); non-trivial = distinct case with an actually shaped packet / trace with >= 1 deviation")
+    rep.finish("IX: every scheme line of <=2 (thorough 3) entries over 12 entry forms x stop x draw policy {min,max,min+1} x 10 payload sizes per packet (+ every line of 3..4 (thorough 5) entries over the reduced alphabet {c, 7, 8, 30, 100-400}), write lengths of every flush-delimited batch checked by the reference acceptor for its line; preamble for every line 0; DX: 2-3 concurrent writers on a fresh session with <= B pre-emptions (wire order vs packet index); non-trivial = distinct case with an actually shaped packet / trace with >= 1 deviation")
 }
 
 pub fn replay_c05(file: &str) -> i32 {
